@@ -212,6 +212,8 @@ impl<TStdlib: Stdlib, TStdIn: Input, TStdOut: Printer, TLpt1: Printer> Interpret
                             i = handler_address;
                         }
                         ErrorHandler::Next => {
+                            // the failing statement might have been collecting arguments
+                            self.context.drop_argument_states();
                             i = ctx.nearest_statement_finder.find_next(i);
                         }
                         ErrorHandler::None => {
